@@ -628,6 +628,20 @@ pub fn exec_stdin(e: &dyn DynEngine) -> i32 {
     if std::io::stdin().read_to_string(&mut s).is_err() {
         return 2;
     }
+    // a replay may be a SEQUENCE of scenarios executed in this one process (a violation that needs state
+    // left behind by earlier runs of the same worker): every scenario runs, the last one is reported
+    if let Ok(Value::Object(o)) = serde_json::from_str::<Value>(&s) {
+        if let Some(Value::Array(seq)) = o.get("sequence") {
+            let Some((last, before)) = seq.split_last() else { return 2 };
+            for sc in before {
+                if let Err(err) = e.run_json(&sc.to_string(), false) {
+                    eprintln!("{err}");
+                    return 2;
+                }
+            }
+            s = last.to_string();
+        }
+    }
     match e.run_json(&s, true) {
         Ok(rec) => {
             let out = json!({
@@ -861,6 +875,7 @@ pub fn run_property(e: &dyn DynEngine, o: RunOpts) -> i32 {
     }
 
     let mut violation_lines: Vec<String> = Vec::new();
+    let mut unreproduced: Vec<String> = Vec::new();
     let mut n_viol = 0u64;
     for (gi, (key, vs)) in groups.iter().enumerate() {
         n_viol += vs.len() as u64;
@@ -888,11 +903,25 @@ pub fn run_property(e: &dyn DynEngine, o: RunOpts) -> i32 {
             }
         }
         let Some((cand, orig, h0, log0, detail0)) = chosen else {
-            eprintln!(
-                "HARNESS-ERROR violation {}/{} ({} occurrences, e.g. {}) did not reproduce in a fresh process for any of the first 25 candidates: the outcome depends on state left by earlier runs in the same worker process",
-                key.0, key.1, vs.len(), vs[0].0.label
-            );
-            return 2;
+            // Not self-contained: the outcome depends on state that earlier runs of the same worker process
+            // left behind (process-global state in the code under simulation). Replay the worker's runs up to
+            // the failing one in a fresh process, with the shortest window of predecessors that still fails.
+            match sequence_replay(e, prop, &o, &ranges, key, vs, hang) {
+                Some((body, label)) => {
+                    let name = format!("{}-{}-{}-sequence", o.seed, sanitize(&label), sanitize(&format!("{}-{}", key.0, key.1)));
+                    let path = write_replay(prop, &name, &body);
+                    violation_lines.push(format!("VIOLATION property={} replay={}", prop, path.display()));
+                    println!("  clause={} site={} run={} occurrences={} detail={}", key.0, key.1, label, vs.len(), tail(body["detail"].as_str().unwrap_or(""), 600));
+                    continue;
+                }
+                None => {
+                    unreproduced.push(format!(
+                        "violation {}/{} ({} occurrences, e.g. {}) did not reproduce in a fresh process, neither alone (first 25 candidates) nor as the sequence of its worker's preceding runs",
+                        key.0, key.1, vs.len(), vs[0].0.label
+                    ));
+                    continue;
+                }
+            }
         };
         let first = &cand.0;
         let lostp = &cand.1;
@@ -933,6 +962,14 @@ pub fn run_property(e: &dyn DynEngine, o: RunOpts) -> i32 {
         let path = write_replay(prop, &name, &body);
         violation_lines.push(format!("VIOLATION property={} replay={}", prop, path.display()));
         println!("  clause={} site={} run={} occurrences={} detail={}", key.0, key.1, first.label, vs.len(), tail(&detail, 600));
+    }
+
+    // A class that could not be reproduced at all is a harness problem only if nothing else was reported.
+    for u in &unreproduced {
+        eprintln!("{} {u}", if violation_lines.is_empty() { "HARNESS-ERROR" } else { "NOTE" });
+    }
+    if violation_lines.is_empty() && !unreproduced.is_empty() {
+        return 2;
     }
 
     // Known findings: print exactly when the listed behaviour is still there.
@@ -1030,6 +1067,71 @@ fn sanitize(s: &str) -> String {
 }
 
 /// Replay a replay file in a fresh process; exit 1 (with the VIOLATION line) when it reproduces.
+/// Reproduce a violation that is not self-contained by replaying, in one fresh process, the runs that
+/// the same worker executed before it. Returns the replay body and the run label.
+fn sequence_replay(e: &dyn DynEngine, prop: &str, o: &RunOpts, ranges: &[(u64, u64)], key: &(String, String), vs: &[(VRec, bool)], hang: Duration) -> Option<(Value, String)> {
+    for (v, _) in vs.iter().take(6) {
+        let Some(idx) = v.label.strip_prefix('r').and_then(|x| x.parse::<u64>().ok()) else { continue };
+        let Some((from, _)) = ranges.iter().find(|(a, b)| *a <= idx && idx < *b) else { continue };
+        let run = |idxs: &[u64]| -> Option<(u64, Vec<String>, String)> {
+            let seq: Vec<Value> = idxs.iter().map(|i| serde_json::from_str::<Value>(&e.gen_json(o.seed, *i, o.tier)).unwrap_or(Value::Null)).collect();
+            let js = json!({ "sequence": seq }).to_string();
+            match exec_in_child(prop, &js, hang) {
+                Ok((viols, h, log)) => viols.iter().find(|x| x.key() == *key).map(|x| (h, log, x.detail.clone())),
+                Err(_) => None,
+            }
+        };
+        // shortest window of predecessors (doubling), then drop predecessors one at a time
+        let avail = idx - from;
+        let mut k = 1u64;
+        let mut found: Option<Vec<u64>> = None;
+        loop {
+            let k2 = k.min(avail);
+            let idxs: Vec<u64> = (idx - k2..=idx).collect();
+            if run(&idxs).is_some() {
+                found = Some(idxs);
+                break;
+            }
+            if k2 == avail || k > 4096 {
+                break;
+            }
+            k *= 2;
+        }
+        let Some(mut idxs) = found else { continue };
+        if idxs.len() <= 65 {
+            let mut i = 0;
+            while i + 1 < idxs.len() {
+                let mut t = idxs.clone();
+                t.remove(i);
+                if run(&t).is_some() {
+                    idxs = t;
+                } else {
+                    i += 1;
+                }
+            }
+        }
+        let (h, log, detail) = run(&idxs)?;
+        let seq: Vec<Value> = idxs.iter().map(|i| serde_json::from_str::<Value>(&e.gen_json(o.seed, *i, o.tier)).unwrap_or(Value::Null)).collect();
+        let body = json!({
+            "property": prop,
+            "seed": o.seed,
+            "run": v.label,
+            "tier": o.tier.name(),
+            "clause": key.0,
+            "site": key.1,
+            "detail": detail,
+            "occurrences_in_batch": vs.len(),
+            "not_self_contained": "the violation needs state left behind in the process by the earlier scenarios of `sequence` (run indices listed in `sequence_runs`); the replay executes all of them in order in one fresh process",
+            "sequence_runs": idxs,
+            "log_hash": format!("{h:016x}"),
+            "sequence": seq,
+            "log": log,
+        });
+        return Some((body, v.label.clone()));
+    }
+    None
+}
+
 pub fn replay(e: &dyn DynEngine, path: &str) -> i32 {
     let prop = e.prop();
     let txt = match std::fs::read_to_string(path) {
@@ -1046,7 +1148,7 @@ pub fn replay(e: &dyn DynEngine, path: &str) -> i32 {
             return 2;
         }
     };
-    let scen = serde_json::to_string(&v["scenario"]).unwrap();
+    let scen = if v.get("sequence").is_some() { json!({ "sequence": v["sequence"] }).to_string() } else { serde_json::to_string(&v["scenario"]).unwrap() };
     let clause = v["clause"].as_str().unwrap_or("").to_string();
     let site = v["site"].as_str().unwrap_or("").to_string();
     match exec_in_child(prop, &scen, Duration::from_secs(180)) {
